@@ -46,6 +46,7 @@ def correspond(rep, tier, seed):
         s2, _ = wake.run_coop(seed * 104729 + 17 * pi + 3, per, 110 if tier == "quick" else 150, prof, trace=False, budget=4000 if tier == "quick" else 8000)
         more.extend(s2)
     n_viol += wake.oracle_coop(rep, more, name="coop-closure")
+    n_viol += wake.oracle_ready_without_wake(rep, tier, seed)
     if failing and n_viol == 0:
         if not search(rep, tier, seed, reason="correspondence"):
             wake.report_disagreements(rep, scs, failing)
@@ -54,6 +55,9 @@ def correspond(rep, tier, seed):
 def search(rep, tier, seed, reason=""):
     if wake.run_corpus(rep) > 0:
         return True
+    for k in range(2 if tier == "quick" else 6):
+        if wake.oracle_ready_without_wake(rep, "quick", seed * 13 + k + 1, name="ready-without-wake-search") > 0:
+            return True
     for k in range(3 if tier == "quick" else 12):
         for pi, prof in enumerate(("queue", "bufcap", "starve", "legal", "limits", "flow", "recv", "mixed", "bp")):
             scs, _ = wake.run_coop(seed * 15485863 + k * 131 + pi, 80, 130, prof, trace=False, budget=5000)
